@@ -1,6 +1,9 @@
 """Recompute harness/anchors.lock.json (AST fingerprints of every anchored function) for the current /repo HEAD.
 Run after a deliberate change of /repo (fix: commit) or when a property module adds anchors."""
 import glob, importlib, json, os, sys
+# ast.dump differs between interpreter versions: always fingerprint with the interpreter the checks use
+if os.path.realpath(sys.executable) != os.path.realpath('/venv/bin/python') and os.path.exists('/venv/bin/python'):
+    os.execv('/venv/bin/python', ['/venv/bin/python'] + sys.argv)
 HERE = os.path.dirname(os.path.abspath(__file__))
 sys.path.insert(0, os.path.join(os.path.dirname(HERE), 'harness'))
 import common
